@@ -1136,19 +1136,29 @@ std::vector<double> Eigenvalues(const Matrix& M)
 
 Vector Find_Eigenvector_Rayleigh(Matrix& M, double& eigenvalue)
 {
-	Vector b(M.Rows(), 1.0);
-	Matrix I	   = Identity_Matrix(M.Rows());
-	double epsilon = 1.0;
-	while(epsilon > 1.0e-10)
+	// Inverse iteration with a fixed shift next to the eigenvalue found by the QR algorithm. The shift is moved off the
+	// eigenvalue by a small fraction of the matrix norm, so that M - shift * I is invertible even if the eigenvalue is exact.
+	unsigned int n = M.Rows();
+	Matrix I	   = Identity_Matrix(n);
+	double norm	   = M.Norm();
+	double shift   = eigenvalue + 1.0e-8 * (norm > 0.0 ? norm : 1.0);
+	Matrix M_inv   = (M - (shift * I)).Inverse();
+	// Generic start vector: (1,...,1) is orthogonal to eigenvectors of many structured matrices.
+	Vector b(n);
+	for(unsigned int i = 0; i < n; i++)
+		b[i] = 1.0 / (1.0 + i);
+	b.Normalize();
+	for(unsigned int iteration = 0; iteration < 100; iteration++)
 	{
 		Vector b_before = b;
-		b				= (M - (eigenvalue * I)).Inverse() * b;
+		b				= M_inv * b;
 		b.Normalize();
-		eigenvalue = b * (M * b);
-		epsilon	   = 0.0;
-		for(unsigned int i = 0; i < b.Size(); i++)
-			epsilon += Relative_Difference(fabs(b[i]), fabs(b_before[i]));
+		if(b * b_before < 0.0)
+			b = -1.0 * b;
+		if((b - b_before).Norm() < 1.0e-15)
+			break;
 	}
+	eigenvalue = b * (M * b);
 	return b;
 }
 
